@@ -612,13 +612,35 @@ fn systematic_families(rng: &mut Rng, budget: usize) -> Vec<Call> {
         // ordered pairs of ordinals / zero words / units as consecutive single-word calls (what one call
         // leaves behind for the next)
         {
-            let mut cands: Vec<&'static str> = pool.ordinals.iter().chain(pool.zero.iter()).chain(pool.units.iter()).copied().collect();
-            cands.dedup();
-            for _ in 0..(per_lang / 12).max(8) {
-                let a = rng.word(&cands);
-                let b = rng.word(&cands);
-                let concrete = rng.chance(1, 2);
-                for w in [a, b] {
+            // every ordered pair of (ordinals + zero words), each exactly once as two consecutive calls:
+            // an Eulerian circuit of the complete directed graph with loops (n*n + 1 calls)
+            let mut nodes: Vec<&'static str> = pool.ordinals.iter().chain(pool.zero.iter()).copied().collect();
+            nodes.sort();
+            nodes.dedup();
+            nodes.truncate(16);
+            let n = nodes.len();
+            let start = rng.below(n.max(1));
+            let mut next_edge = vec![0usize; n];
+            let mut stack = vec![start];
+            let mut circuit: Vec<usize> = Vec::with_capacity(n * n + 1);
+            while let Some(&u) = stack.last() {
+                if next_edge[u] < n {
+                    let v = (u + 1 + next_edge[u]) % n;
+                    next_edge[u] += 1;
+                    stack.push(v);
+                } else {
+                    circuit.push(u);
+                    stack.pop();
+                }
+            }
+            let concrete = rng.chance(1, 2);
+            for &u in circuit.iter().rev() {
+                out.push(Call { lang, concrete, op: Op::T2d { text: nodes[u].to_string() }, crash_at: 0, reenter: 0, during_unwind: false });
+            }
+            // plus a few random pairs with units
+            let cands: Vec<&'static str> = pool.ordinals.iter().chain(pool.units.iter()).copied().collect();
+            for _ in 0..8 {
+                for w in [rng.word(&cands), rng.word(&cands)] {
                     out.push(Call { lang, concrete, op: Op::T2d { text: w.to_string() }, crash_at: 0, reenter: 0, during_unwind: false });
                 }
             }
